@@ -85,24 +85,34 @@ def find_scans(f, L, body, paths):
                 if e.kind == "call" and e.name.endswith("Iterator>::next") and e.bb == hdr:
                     sc.first_event_idx = e.idx
         sc.paths += 1
-        # classify by the length test on the between set
+        # classify by what the path's decisions leave for the size of the blocker set (between & occupied)
         cls = None
         X = None
-        for c2 in p.conds[i + 1:]:
-            e, v = strip_idx(L.lift(c2[0])), c2[1]
-            if e[0] == "len":
-                X = e[1]
-                cls = v if isinstance(v, int) else "other"
-            elif e[0] == "bin" and e[1] in ("Eq", "Ne") and isinstance(v, int):
-                a, b = e[2], e[3]
-                if a[0] == "len" and b[0] == "int":
-                    X, k = a[1], b[1]
-                elif b[0] == "len" and a[0] == "int":
-                    X, k = b[1], a[1]
-                else:
-                    continue
-                eq = (e[1] == "Eq") == bool(v)
-                cls = k if eq else ("not", k)
+        lifted = [(strip_idx(L.lift(c2[0])), c2[1]) for c2 in p.conds[i + 1:]]
+        for e, v in lifted:
+            for cand in sym.subterms(e, lambda x: x[0] in ("len", "isempty")):
+                if sym.contains(cand[1], lambda y: y[0] == "between"):
+                    X = cand[1]
+        if X is not None:
+            from ..ranges import Ranger
+            bd = Ranger(f, {}).bounds(("len", X), lifted)
+            if bd == (0, 0):
+                cls = 0
+            elif bd == (1, 1):
+                cls = 1
+            elif bd is not None and bd[0] >= 2:
+                cls = "other"
+            elif bd is not None and bd[0] >= 1:
+                cls = ("not", 0)
+            elif bd is not None and bd[1] == 1:
+                cls = ("atmost", 1)
+            else:
+                cls = ("not", 1) if bd is not None and bd[0] == 0 else "other"
+            # "not exactly one": the decisions exclude 1 without fixing the value
+            if cls not in (0, 1):
+                ex1 = any((e == ("bin", "Eq", ("int", 1, "u32"), ("len", X)) or e == ("bin", "Eq", ("len", X), ("int", 1, "u32"))) and v == 0 for e, v in lifted)
+                if ex1:
+                    cls = ("not", 1)
         if X is not None:
             sc.X = X
         # effects: accumulators changed relative to their havoc value
